@@ -353,7 +353,14 @@ def wavg_checks(ctx):
              {"ps": [-100.0, 100.0, 1e20], "ws": [1 / 102, 1 / 102, 100 / 102], "kind": "repo test", "np": True},
              {"ps": [5.0, 1e6], "ws": [0.0, 1.0], "kind": "zero valid weight", "np": False},
              {"ps": [1e6, 1e7], "ws": [0.5, 0.5], "kind": "all invalid", "np": False}]
-    cases = fixed + [gen_wavg_case(rng) for _ in range(n)]
+    # tiny (but positive) total weight on the valid entries: the mean of the valid inputs must still come back
+    tiny = []
+    for k in (9, 12, 15, 16, 17, 18, 20, 24, 30, 40, 50):
+        w = 2.0 ** -k
+        tiny.append({"ps": [rng.choice(VALID_POOL), rng.choice(INVALID_POOL)], "ws": [w, 1.0 - w], "kind": "tiny valid weight", "np": False})
+        tiny.append({"ps": [rng.choice(INVALID_POOL), rng.choice(VALID_POOL), rng.choice(VALID_POOL)],
+                     "ws": [1.0 - w, w / 2, w / 2], "kind": "tiny valid weight", "np": rng.random() < 0.5})
+    cases = fixed + tiny + [gen_wavg_case(rng) for _ in range(n)]
     # twins for the "ignores" clause: same case with every impossible value replaced by another impossible value
     twins = []
     for c in cases:
